@@ -50,3 +50,6 @@ func verifYield(point string) {
 		runtime.Gosched()
 	}
 }
+
+// VerifReconnectTimeout exposes reconnectTimeout for the correspondence check of the back-off.
+func VerifReconnectTimeout(attempt int) time.Duration { return reconnectTimeout(attempt) }
